@@ -38,6 +38,12 @@ SI == [au |-> <<149, 597870700, 0>>, yr |-> <<0, 31557600, 0>>, day |-> <<0, 864
        G |-> <<0, 667408, -16>>,
        GMsun |-> <<132712440, 041939380, 3>>, GMearth |-> <<398600, 435436096, 0>>, GMjupiter |-> <<126686534, 921800800, 0>>]
 
+(* names that denote the same unit: every member of a group must carry exactly the size of the group's first member;
+   sizes fixed by definition beyond the table above: s = 1, m = 1, kg = 1, g = gram = 1e-3, gyr = 1e9 yr, sidereal_yr # yr *)
+Aliases == << <<"day", "days", "d">>, <<"yr", "year", "years", "yrs", "jyr">>, <<"au", "aus">>, <<"pc", "parsec">>, <<"g", "gram">>,
+             <<"msun", "solarmass", "sunmass", "msolar">> >>
+AliasesDisjoint == \A i, j \in 1..Len(Aliases) : i # j => {Aliases[i][k] : k \in 1..Len(Aliases[i])} \cap {Aliases[j][k] : k \in 1..Len(Aliases[j])} = {}
+
 (* ---------------- (b) *)
 Idx == 1..3
 Mat == [Idx -> [Idx -> {-1, 0, 1}]]
@@ -74,6 +80,6 @@ Emit == CASE row[1] = "O" -> PrintT(<<"O", row[2], row[3], row[4], ToJson(Flat(O
           [] row[1] = "A" -> PrintT(<<"A", row[2], row[3], ToJson(Flat(Pow(IF row[2] = "x" THEN Rx ELSE IF row[2] = "y" THEN Ry ELSE Rz, row[3])))>>)
           [] row[1] = "D" -> PrintT(<<"D", row[2], ToJson(Flat(Pow(Diag111, row[2])))>>)
           [] row[1] = "E" -> PrintT(<<"E", 1, ToJson(Flat(Edge110))>>)
-          [] row[1] = "DIM" -> PrintT(<<"DIM", ToJson([dims |-> Dims, si |-> SI])>>)
-Theorems == Transitive /\ Reversible /\ InvariantFree /\ DimOfGConsistent /\ GroupOK
+          [] row[1] = "DIM" -> PrintT(<<"DIM", ToJson([dims |-> Dims, si |-> SI, aliases |-> Aliases])>>)
+Theorems == Transitive /\ Reversible /\ InvariantFree /\ DimOfGConsistent /\ GroupOK /\ AliasesDisjoint
 =============================================================================
